@@ -79,6 +79,10 @@ def cases(tier, seed):
     for op in OPS:
         for m in sp.structures_upto(3 if tier == 'quick' else 4):
             yield ('HE', op, m)
+    # an execution that raises half-way, then the well-formed model (same operation object, fresh one)
+    for op in OPS:
+        for m in list(sp.structures_upto(4 if tier == 'quick' else 5))[1:] + alpha[-6:]:
+            yield ('HF', op, m)
     for m in sp.structures_upto(3 if tier == 'quick' else 4):
         for leaves_only in (False, True):
             for pre in ('none', 'some', 'all', 'some-valueless'):
@@ -107,8 +111,8 @@ def describe(case):
         return 'H:%s | %s' % (case[1], ' -> '.join(sh.model_str(m) for m in case[2]))
     if case[0] == 'X':
         return 'X:%s,%s | %s' % (case[1], case[2], sh.model_str(case[3]))
-    if case[0] == 'HE':
-        return 'HE:%s | %s' % (case[1], sh.model_str(case[2]))
+    if case[0] in ('HE', 'HF'):
+        return '%s:%s | %s' % (case[0], case[1], sh.model_str(case[2]))
     return 'G:%s | leaves=%s pre=%s domain=%s dev<=%d' % (sh.model_str(case[1]), case[2], case[3], case[4], case[5])
 
 
@@ -124,9 +128,10 @@ def reduce(case):
     elif case[0] == 'X':
         for r in sh.reductions(case[3], sp.NAME_POOL):
             yield ('X', case[1], case[2], r)
-    elif case[0] == 'HE':
+    elif case[0] in ('HE', 'HF'):
         for r in sh.reductions(case[2], sp.NAME_POOL):
-            yield ('HE', case[1], r)
+            if case[0] == 'HE' or sh.size(r) > 1:
+                yield (case[0], case[1], r)
     else:
         for r in sh.reductions(case[1], sp.NAME_POOL):
             yield ('G', r) + tuple(case[2:])
@@ -221,13 +226,16 @@ def _full_snapshot(fm):
 def _check_history(opname, seq):
     out = []
     op = getattr(ops, opname)()
+    kept = []        # (step, result object as returned, its normal form when it was returned)
     for i, model in enumerate(seq):
         fm, fails = cm.built(model)
         if fails:
             return fails
         before = _full_snapshot(fm)
         try:
-            got = _exec(op, opname, fm)
+            raw = _exec(op, opname, fm, raw=True)
+            got = _norm(raw)
+            kept.append((i, raw, got, fm))
         except Exception as exc:  # noqa: BLE001
             return [Fail('history-raises:%s' % type(exc).__name__, {'step': i, 'msg': str(exc)[:200]})]
         after = _full_snapshot(fm)
@@ -252,6 +260,93 @@ def _check_history(opname, seq):
             got = again
             out.append(Fail('result-depends-on-process-history', {'step': i, 'op': opname, 'got': repr(got)[:200],
                                                                    'never-seen-names': repr(pristine)[:200]}))
+        # results handed out earlier belong to the caller: later executions (by this or any other
+        # operation object) must not change them
+        for (j, raw_j, norm_j, _fm) in kept:
+            try:
+                now = _norm(raw_j)
+            except Exception as exc:  # noqa: BLE001
+                now = ('unreadable', type(exc).__name__)
+            if now != norm_j:
+                out.append(Fail('earlier-result-changed-by-later-execution', {'op': opname, 'result of step': j, 'after step': i,
+                                                                              'was': repr(norm_j)[:200], 'now': repr(now)[:200]}))
+                break
+        if out:
+            break
+    if not out and kept:
+        # ... and whatever the caller does with a returned result must not reach later executions
+        j, raw_j, norm_j, fm_j = kept[-1]
+        if _scribble(raw_j):
+            try:
+                again_same = _exec(op, opname, fm_j)
+                again_fresh = _exec(getattr(ops, opname)(), opname, bd.build(seq[-1]))
+                engine.tick(2)
+            except Exception as exc:  # noqa: BLE001
+                return [Fail('history-raises:%s' % type(exc).__name__, {'after': 'the caller emptied a returned result', 'msg': str(exc)[:200]})]
+            if again_same != norm_j or again_fresh != norm_j:
+                out.append(Fail('result-depends-on-what-the-caller-did-with-an-earlier-result',
+                                {'op': opname, 'expected': repr(norm_j)[:200], 'same object': repr(again_same)[:200],
+                                 'fresh object': repr(again_fresh)[:200]}))
+    return out
+
+
+def _scribble(res):
+    """Empty a returned container in place (what a caller is free to do with a value it was given)."""
+    if isinstance(res, list):
+        for x in res:
+            if isinstance(x, (set, list, dict)):
+                x.clear()
+        res.clear()
+        return True
+    if isinstance(res, (dict, set)):
+        res.clear()
+        return True
+    return False
+
+
+class _Foreign:
+    pass
+
+
+def _check_failure_history(opname, model):
+    """An execution that raises half-way (ill-formed model: one child is not a Feature; for the
+    ancestors operation also a feature that is not in the model), then the well-formed model with the
+    same operation object and with a fresh one."""
+    out = []
+    variants = []
+    for path, _f in list(sh._paths(model[0]))[1:]:
+        for marker in ('__ALIEN_STR__', '__ALIEN_NONE__'):
+            variants.append((marker + '@' + '.'.join('%d,%d' % p for p in path),
+                             (sh._replace_feature(model[0], list(path), lambda g, marker=marker: (marker, (), g[2], g[3], g[4], g[5])), model[1])))
+    variants.append(('foreign', sh.M(sh.F('Zq', [sh.R(1, 1, [sh.F('Yq')]), sh.R(0, 1, [sh.F('Xq')])]))))
+    try:
+        fresh = _exec(getattr(ops, opname)(), opname, bd.build(model))
+    except Exception as exc:  # noqa: BLE001
+        return [Fail('fresh-raises:%s' % type(exc).__name__, str(exc)[:200])]
+    for (what, bad) in variants:
+        op = getattr(ops, opname)()
+        good = bd.build(model)
+        if opname == 'FMFeatureAncestors':
+            op.set_feature(good.get_features()[-1])
+        raised = False
+        try:
+            op.execute(bd.build(bad))
+        except Exception:  # noqa: BLE001
+            raised = True
+        engine.tick()
+        try:
+            got = _norm(op.execute(good).get_result())
+            other = _exec(getattr(ops, opname)(), opname, bd.build(model))
+            renamed, suffix = _unique_copy(model)
+            pristine = _canon(_exec(getattr(ops, opname)(), opname, bd.build(renamed), raw=True), suffix)
+            again = _canon(_exec(getattr(ops, opname)(), opname, bd.build(model), raw=True))
+            engine.tick(3)
+        except Exception as exc:  # noqa: BLE001
+            return [Fail('after-failed-execution:raises:%s' % type(exc).__name__, {'op': opname, 'first': what, 'first raised': raised, 'msg': str(exc)[:200]})]
+        if got != fresh:
+            out.append(Fail('after-failed-execution:same-object', {'op': opname, 'first': what, 'first raised': raised, 'got': repr(got)[:200], 'fresh': repr(fresh)[:200]}))
+        elif other != fresh or again != pristine:
+            out.append(Fail('after-failed-execution:fresh-object', {'op': opname, 'first': what, 'got': repr(other)[:200], 'fresh': repr(fresh)[:200]}))
         if out:
             break
     return out
@@ -552,6 +647,8 @@ def _check_edit_history(opname, model):
 def check(case):
     if case[0] == 'HE':
         return _check_edit_history(case[1], case[2])
+    if case[0] == 'HF':
+        return _check_failure_history(case[1], case[2])
     if case[0] == 'H':
         return _check_history(case[1], case[2])
     if case[0] == 'X':
